@@ -9,7 +9,7 @@
 import re
 from engine import AnchorLost, op_place, const_int
 from audit import Auditor
-from common import fmt_key, switch_info, err_assign_blocks, reach_from, ok_assign_blocks
+from common import constructed_errors, fmt_key, switch_info, err_assign_blocks, reach_from, ok_assign_blocks
 from terms import TermBuilder, render
 from absint import Interp, BV, Enum, Ref, Opaque, LeaveDomain
 
@@ -165,7 +165,7 @@ def pre_suffix_caller(f, s):
         return False, "validate_suffix has %d callers" % len(callers)
     b, c = callers[0]
     t = render(TermBuilder(b).term(c.args[0]))
-    ok = "std::ops::RangeFrom::RangeFrom{" in t and "core::str::<impl str>::find(" in t
+    ok = ("std::ops::RangeFrom::RangeFrom{" in t or re.search(r"<impl str>::split_at\(.*\)\.1$", t) is not None) and "core::str::<impl str>::find(" in t
     return ok, "the only caller passes part[index..] where index is the position of the first operator: the first char is an operator, so last_ch is Some before any flag"
 
 
@@ -320,7 +320,7 @@ def run(f, fixture, rep, cfg, tier):
             rep.check(ok and not bad, "D", "add_data|%s" % c.decl.rsplit("::", 1)[-1], "%s's failure is turned into an error" % c.decl,
                       "%s's None/Err is %s" % (c.decl, "unwrapped" if bad else "not converted into an error (%s)" % names), c.loc())
     rep.floor("D", "Path decomposition calls in add_data", n, 3)
-    errs = {v for (_b, v) in err_assign_blocks(ad)}
+    errs = {v for (_b, v) in err_assign_blocks(ad)} | constructed_errors(f, ad)
     rep.check("InvalidDestinationPath" in errs, "D", "add_data|error-variant", "add_data reports InvalidDestinationPath", "add_data never returns InvalidDestinationPath", ad.span)
 
     # ---- K ------------------------------------------------------------------------------------------
